@@ -89,6 +89,8 @@ def run_c04(ctx):
             ctx.violations += judge_c04_values(ctx, cfg, batch)
         for d in docs[:4]:
             ctx.sample({'kind': 'Value', 'cfg': cfg, 'doc_hex': hx(d)})
+    for cfg in ctx.cfgs:
+        ctx.violations += P.judge_typed_budget(ctx, cfg)      # long flat collections of every container/variant kind read back
     try:
         from checks import typed as T
         if hasattr(T, 'run_c04_typed'):
